@@ -221,7 +221,17 @@ func (ac *assertChecker) findDispatchSites() {
 				if inner == nil {
 					continue
 				}
-				outer := lookupOf(inner.X)
+				// the table and the receiver may reach this call through a helper's parameters: resolved at its call site(s)
+				one := func(v ssa.Value) ssa.Value {
+					rs := m.resolveUp(v, nil, 0)
+					for _, r := range rs[1:] {
+						if r != rs[0] {
+							return v
+						}
+					}
+					return rs[0]
+				}
+				outer := lookupOf(one(inner.X))
 				if outer == nil {
 					continue
 				}
@@ -235,6 +245,8 @@ func (ac *assertChecker) findDispatchSites() {
 				}
 				if call.Call.Args[1] == r {
 					ac.dispatchSites[call] = r
+				} else if one(call.Call.Args[1]) == r {
+					ac.dispatchSites[call] = call.Call.Args[1]
 				}
 			}
 		}
